@@ -109,6 +109,7 @@ func propC09(w *World, r *Report) {
 	checkSeg12Break(w, r)
 	checkLangField(w, r)
 	checkMacRoman(w, r)
+	checkPerCode(w, r)
 	checkExplicitDelta(w, r)
 	checkOverlapStrict(w, r, newBoundsRun(w))
 	RunSearchFields(w, r, map[string]bool{"(cmap.Format4).Encode": true})
